@@ -414,6 +414,29 @@ var wrappers = []wrapper{
 	}},
 }
 
+// fileNamePairs are (first file, second file) names that a lookup by name could confuse: equal
+// base names in different directories, prefixes / suffixes of each other, "./", "..", "//",
+// backslash, no extension, the empty name, letter case, Unicode.
+var fileNamePairs = [][2]string{
+	{"admin/index.soy", "shop/index.soy"}, {"shop/index.soy", "index.soy"}, {"index.soy", "admin/index.soy"},
+	{"a.soy", "aa.soy"}, {"x/a.soy", "a.soy"}, {"a.soy", "x/a.soy"}, {"./a.soy", "a.soy"}, {"x//a.soy", "x/a.soy"},
+	{"x\\a.soy", "a.soy"}, {"a", "a.soy"}, {"", "a.soy"}, {"a.soy", ""}, {"../a.soy", "a.soy"}, {"A.soy", "a.soy"},
+	{"é.soy", "e.soy"}, {"dir/", "dir"}, {"a.soy.bak", "a.soy"}, {" a.soy", "a.soy"},
+}
+
+// fileNames names the files of program id: most programs keep <namespace>.soy; every third
+// program takes a pair from fileNamePairs (the extras are renamed in place).
+func fileNames(id int, ns string, extra []core.File) string {
+	if id%3 != 0 {
+		return ns + ".soy"
+	}
+	pair := fileNamePairs[(id/3)%len(fileNamePairs)]
+	if len(extra) > 0 {
+		extra[0].Name = pair[1]
+	}
+	return pair[0]
+}
+
 // nsFor gives program id its namespace. The root segment is unique to the
 // program; the shapes cover one to four segments, a segment repeated, a later
 // segment that occurs earlier as a substring, and a segment that is a prefix
@@ -487,8 +510,9 @@ func assemble(id int, g *gen, pos, class, wrap, s, body, exp string) *Program {
 		tmpls = append(tmpls, sns+".sib")
 	}
 	sort.Strings(tmpls)
+	mainName := fileNames(id, g.ns, extra)
 	return &Program{ID: id, NS: g.ns, Pos: pos, Class: class, Wrap: wrap, S: s, Expect: exp,
-		File: core.File{Name: g.ns + ".soy", Text: b.String()}, Extra: extra, Globals: g.globals, GlobalsText: g.gtext,
+		File: core.File{Name: mainName, Text: b.String()}, Extra: extra, Globals: g.globals, GlobalsText: g.gtext,
 		Data: g.data, Templates: tmpls, Translation: g.transl}
 }
 
@@ -730,5 +754,70 @@ func BuildIdent(id int, use, name string, w wrapper) (*Program, bool) {
 		p.Templates = append(p.Templates, g.ns+"."+m[1])
 		sort.Strings(p.Templates)
 	}
+	return p, true
+}
+
+// ---- round 5: near-invalid bundle shapes the compiler might accept ---------
+
+// ShapeKinds are bundles at the edge of validity: whenever the compiler accepts one, every
+// script must be well formed and every qualified template name defined exactly once.
+var ShapeKinds = []string{"dup-in-file", "dup-in-file-main-last", "dup-across-files", "case-differs", "case-differs-namespace",
+	"template-like-namespace", "namespace-like-template", "template-like-namespace-same-file-order"}
+
+// BuildShape builds one such bundle (root segment unique to the program).
+func BuildShape(id int, kind string) (*Program, bool) {
+	r := fmt.Sprintf("sh%d", id)
+	t := func(name, body string) string {
+		return "/** */\n{template ." + name + " autoescape=\"false\"}" + body + "{/template}\n"
+	}
+	p := &Program{ID: id, Pos: "shape-" + kind, Class: "bundle-shape", Wrap: "top", S: kind, Data: map[string]interface{}{}}
+	file := func(name, ns, body string) core.File {
+		return core.File{Name: name, Text: "{namespace " + ns + "}\n\n" + body}
+	}
+	switch kind {
+	case "dup-in-file":
+		p.NS, p.Expect = r, "one"
+		p.File = file(r+".soy", r, t("main", "{call .t/}")+t("t", "one")+t("t", "two"))
+		p.Templates = []string{r + ".main", r + ".t"}
+	case "dup-in-file-main-last":
+		p.NS, p.Expect = r, "one"
+		p.File = file(r+".soy", r, t("t", "one")+t("t", "two")+t("main", "{call .t/}"))
+		p.Templates = []string{r + ".main", r + ".t"}
+	case "dup-across-files":
+		p.NS, p.Expect = r, "one"
+		p.File = file(r+".soy", r, t("main", "{call .t/}")+t("t", "one"))
+		p.Extra = []core.File{file(r+"-2.soy", r, t("t", "two"))}
+		p.Templates = []string{r + ".main", r + ".t"}
+	case "case-differs":
+		p.NS, p.Expect = r, "Tt"
+		p.File = file(r+".soy", r, t("main", "{call .Tmpl/}{call .tmpl/}")+t("Tmpl", "T"))
+		p.Extra = []core.File{file(r+"-2.soy", r, t("tmpl", "t"))}
+		p.Templates = []string{r + ".Tmpl", r + ".main", r + ".tmpl"}
+	case "case-differs-namespace":
+		p.NS, p.Expect = r+".ui", "uU"
+		p.File = file(r+".soy", r+".ui", t("main", "{call .t/}{call "+r+".UI.t/}")+t("t", "u"))
+		p.Extra = []core.File{file(r+"-2.soy", r+".UI", t("t", "U"))}
+		p.Templates = []string{r + ".UI.t", r + ".ui.main", r + ".ui.t"}
+	case "template-like-namespace":
+		// template <r>.b.c (a function) and namespace <r>.b.c (templates hang off that function)
+		p.NS, p.Expect = r+".b", "CD"
+		p.File = file(r+".soy", r+".b", t("main", "{call .c/}{call "+r+".b.c.d/}")+t("c", "C"))
+		p.Extra = []core.File{file(r+"-2.soy", r+".b.c", t("d", "D"))}
+		p.Templates = []string{r + ".b.c", r + ".b.c.d", r + ".b.main"}
+	case "namespace-like-template":
+		// the same, the namespace's file first
+		p.NS, p.Expect = r+".b.c", "DC"
+		p.File = file(r+".soy", r+".b.c", t("main", "{call .d/}{call "+r+".b.c/}")+t("d", "D"))
+		p.Extra = []core.File{file(r+"-2.soy", r+".b", t("c", "C"))}
+		p.Templates = []string{r + ".b.c", r + ".b.c.d", r + ".b.c.main"}
+	case "template-like-namespace-same-file-order":
+		p.NS, p.Expect = r, "XY"
+		p.File = file(r+".soy", r, t("main", "{call .x/}{call "+r+".x.y/}")+t("x", "X"))
+		p.Extra = []core.File{file(r+"-2.soy", r+".x", t("y", "Y"))}
+		p.Templates = []string{r + ".main", r + ".x", r + ".x.y"}
+	default:
+		return nil, false
+	}
+	sort.Strings(p.Templates)
 	return p, true
 }
